@@ -9,6 +9,7 @@ RULE = ("the same program set is executed by executors compiled for baseline x86
         "k blocks (k = 1..=20, +0/+1 trailing bytes) from a buffer at every byte offset 0..=31 (quick: offsets {0,1,4,8,16,31}, k in {1,3,4,5,8,9,12,20}), and two "
         "consecutive multi-block updates; BLAKE2b/s keyed/unkeyed x outlen {1,32,max} x lengths {0,1,B-1,B,B+1,2B,2B+1,5B} x offsets; the complete C03 grid (SSE2 "
         "contexts and the portable engine through the hook); HMAC, PBKDF2, scrypt and Argon2 spot programs; the BLAKE2 / cipher counter-crossing hook programs of C20; C01 shards for all variants (compiler-level differences); "
+        "object placement: every hash context type created, cloned, fed and finalised (and every one-shot function called) with the stack pointer as it is and moved by 16 bytes and after filler heap allocations of several sizes, in an executor that runs without address-space randomisation (addresses seen are reported); "
         "counts are summed over the builds; distinct = program text")
 ASSUMPTIONS = ["reference models as in C01, C03, C08, C10, C11", "only x86-64 feature sets the host CPU has are built; the aarch64 path is not buildable here"]
 
@@ -47,6 +48,7 @@ def shards(tier):
             sh.append(("shard_blake2", (b, which)))
         sh.append(("shard_spots", b))
         sh.append(("shard_counters", b))
+        sh.append(("shard_placement", b))
     foreign = multi.foreign_jobs(["c03"], tier, BUILDS) + multi.foreign_jobs(["c01"], "quick", BUILDS, select=lambda mn, f, a: f != "shard_huge")
     sh += [("shard_foreign", j) for j in foreign]
     return sh
@@ -157,6 +159,49 @@ def shard_counters(build, tier):
     ck.run(cs)
     ck.stats.states = len(cs)
     return _finish(ck, "counters", build)
+
+
+PLACE_PREFIXES = ([], ["stk16"], ["heappad 40"], ["stk16", "heappad 40"], ["heappad 40", "heappad 40"], ["heappad 24"], ["heappad 8", "heappad 40", "heappad 72"])
+
+
+def shard_placement(build, tier):
+    """where the objects lie: every context type is created, cloned, fed and finalised with the stack pointer as it is and moved by 16
+    bytes (op stk16: stack objects of alignment <= 16 change residue modulo 32), and after filler allocations of several sizes (heap
+    objects move); the one-shot functions likewise. The executor runs without address-space randomisation, so each placement is the
+    same in every process. The addresses (modulo 64) at which the context objects were seen are reported, not compared."""
+    from .common import CTX
+    core.BUILD_OVERRIDE = build
+    try:
+        ck = core.Checker(PROPERTY_ID)
+    finally:
+        core.BUILD_OVERRIDE = None
+    cases = []
+    for variant, (kind, oneshot, B, D) in CTX.items():
+        for n in (0, 1, B + 1, 5 * B):
+            d = obs_of(hashes.digest(variant, pat(5, 3, n)))
+            data = P(5, 3, n) if n else "h:"
+            for pre in PLACE_PREFIXES:
+                cases.append((pre + ["hnew s0 %s" % " ".join(kind), "hwhere s0", "update_mut s0 @%d:%s" % (n % 7, data), "hclone s0 s1", "hwhere s1", "fin s0", "fin s1"],
+                              ["-"] * len(pre) + ["-", None, "-", "-", None, d, d], {"w": (len(pre) + 1, len(pre) + 4)}))
+                if oneshot:
+                    cases.append((pre + ["hash %s %s" % (oneshot, data)], ["-"] * len(pre) + [d], None))
+    for which, kind, mx, B in (("b", "b2bdyn", 64, 128), ("s", "b2sdyn", 32, 64)):
+        for key in (b"", pat(6, 0, 3)):
+            for n in (0, 1, B + 1, 5 * B):
+                d = obs_of(hashes.blake2(which, pat(5, 3, n), mx, key))
+                for pre in PLACE_PREFIXES:
+                    new = "hnew s0 %s %d" % (kind, mx) + ((" " + H(key)) if key else "")
+                    cases.append((pre + [new, "hwhere s0", "update_mut s0 %s" % (P(5, 3, n) if n else "h:"), "fin s0"], ["-"] * len(pre) + ["-", None, "-", d], {"w": (len(pre) + 1,)}))
+    obs = ck.run(cases)
+    seen = set()
+    for (ops, exp, meta), o in zip(cases, obs):
+        if meta and len(o) == len(ops):
+            for i in meta["w"]:
+                seen.add(o[i])
+    ck.stats.states = len(cases)
+    ck.stats.extra["context_addresses_mod64_seen"] = ["%s: %s" % (build, ",".join(sorted(seen, key=lambda x: (len(x), x))))]
+    ck.stats.extra["transcripts"] = []
+    return ck.stats
 
 
 def shard_foreign(job, tier):
